@@ -82,8 +82,7 @@ theorem free_probeDone (c : Cfg) (x : Th) (d : Nat) : free (probeDone c x d).pc 
   unfold probeDone retWith; repeat' split
   all_goals rfl
 theorem free_pollEntry (x : Th) : free (pollEntry x).pc = true := by
-  unfold pollEntry; repeat' split
-  all_goals rfl
+  unfold pollEntry; split <;> rfl
 
 theorem pubDone_pc (x : Th) : (pubDone x).pc = .dDr ∨ (pubDone x).pc = .dId ∨ (pubDone x).pc = .fUnlock := by
   unfold pubDone; split <;> simp
